@@ -263,6 +263,8 @@ pub struct World {
     pub log: Vec<String>,
     pub violations: Vec<(String, String)>,
     pub obligations: Vec<Obligation>,
+    /// the connection whose holder is letting go of its handle right now (`HoldFuture::unhold`)
+    pub releasing: Option<usize>,
     pub classes: BTreeSet<&'static str>,
     pub cfg: PoolCfg,
     pub logging: bool,
@@ -667,11 +669,12 @@ impl Drop for HConn {
                 // (a shareable connection occupies an idle slot with the pool's own handle for as long as it lives)
                 let peers = w.conns.iter().enumerate().filter(|(i, c)| *i != id && c.okey == okey && c.open && c.handles >= 1 && (c.shareable || c.holders.is_empty())).count();
                 w.conns[id].drop_peers = Some(peers);
-                // C14: the holder's release itself destroyed an open single-use connection (no hand-back
+                // C14: the holder's release itself (not the cancellation of a request that had merely been
+                // assigned an idle connection) destroyed an open single-use connection (no hand-back
                 // task ever looked at it) while a polled request of the same origin waits for its own
                 // dial - whatever the idle limit is, that request was to be served by this connection
                 let a = w.actor();
-                if matches!(a, Actor::Poll(_) | Actor::Cancel(_)) && !w.conns[id].shareable && w.conns[id].handoffs >= 1 {
+                if matches!(a, Actor::Poll(_) | Actor::Cancel(_)) && !w.conns[id].shareable && w.conns[id].handoffs >= 1 && w.releasing == Some(id) {
                     let (def_all, _) = w.hungry(&okey, None);
                     let def: Vec<usize> = def_all.into_iter().filter(|r| w.reqs[*r].dials.iter().any(|d| w.dials[*d].in_flight())).collect();
                     if !def.is_empty() {
@@ -815,8 +818,10 @@ impl HoldFuture {
                 let mut w = self.w.lock().unwrap();
                 w.conns[cid].holders.retain(|r| *r != req);
                 w.log(|| format!("req#{req} lets go of conn#{cid}"));
+                w.releasing = Some(cid);
             }
             drop(c);
+            self.w.lock().unwrap().releasing = None;
         }
     }
 }
